@@ -1036,6 +1036,10 @@ pub struct NetStats {
     pub tx_log: Vec<Vec<u8>>,
     /// The answer to each logged frame (same index)
     pub rx_log: Vec<Vec<u8>>,
+    /// Executor statistics: most frames in flight at once, and responses delivered while a frame
+    /// sent earlier was still on its way
+    pub max_in_flight: usize,
+    pub overtakes: u64,
     /// Global time of the last DC receive time latch (BWR 0x0900)
     pub dc_latch_at: Option<u64>,
     /// Station addresses FRMW datagrams were sent to (distinct, in order of first use)
